@@ -573,9 +573,25 @@ def hist_fn(case):
         check_views(r, got, real_views(w2[2]), s, tag, 'differential')
     # round trip (destructive, on this case's private objects)
     pvals = dict((p[0], p[5]) for p in after['params'])
-    w[2].update_model(list(w[2].fit_values))
-    rt = real_state(*w)
     fitted = dict((strip(n), i) for i, n in enumerate(got['names']))
+    try:
+        w[2].update_model(list(w[2].fit_values))
+    except (OverflowError, ValueError, ArithmeticError) as e:
+        # the reported values cannot even be written back (10**value overflows when a linear value is
+        # reported under a log prior): same structural classes as a changed value
+        hit = False
+        for k, i in fitted.items():
+            src, agree = space_class(s.p[k], got['prior_log'][i])
+            if agree == 'mode-differs-from-prior-space':
+                hit = True
+                cls = '%s/%s' % (src + ('/' + tag if src == 'default-prior' else ''), agree)
+                r.check(False, 'round-trip', 'round-trip/fitted-value-changes/%s' % cls, param=k,
+                        exc=repr(e), reported=got['values'][i], name=got['names'][i])
+        if not hit:
+            r.check(False, 'round-trip', 'round-trip/raised/%s' % type(e).__name__, exc=repr(e),
+                    reported=got['values'], names=got['names'])
+        return r
+    rt = real_state(*w)
     for p in rt['params']:
         k = p[0]
         if k in fitted:
